@@ -665,6 +665,8 @@ fn expand_brace_range(tokens: &mut types::Tokens) {
             incr = 1;
         }
 
+        // do the arithmetic in i64: n +/- incr cannot leave the i64 range
+        let (start, end, incr) = (start as i64, end as i64, incr as i64);
         let mut result: Vec<String> = Vec::new();
         let mut n = start;
         if start > end {
